@@ -387,6 +387,12 @@ impl<'a> Querier for SimQuerier<'a> {
                     Err(e) => SystemResult::Ok(ContractResult::Err(e)),
                 }
             }
+            QueryRequest::Wasm(WasmQuery::ContractInfo { contract_addr }) => {
+                if !self.w.contracts.contains_key(&contract_addr) {
+                    return sys_err(SystemError::NoSuchContract { addr: contract_addr });
+                }
+                ok_bin(&json!({"code_id": 1, "creator": OWNER, "admin": null, "pinned": false, "ibc_port": null}))
+            }
             QueryRequest::Wasm(WasmQuery::Raw { contract_addr, key }) => {
                 match self.w.contracts.get(&contract_addr) {
                     None => sys_err(SystemError::NoSuchContract { addr: contract_addr }),
